@@ -1,4 +1,5 @@
 import OpusModel.SilkSyms
+import OpusModel.CeltSyms
 import Driver.Util
 /- Suite `silksyms` (property C03): the SILK symbol layer as driven by opus_decode.
 
@@ -17,6 +18,7 @@ import Driver.Util
    silksyms frame <mode> <bandwidth> <nch> <ms10> <fec> x<frame>   one Opus frame, same record. -/
 namespace Driver.SuiteSilkSyms
 open Opus Opus.SilkSyms Driver
+open Opus.CeltSyms (CEv CeltHdr)
 
 def dots (l : List Nat) : String := ".".intercalate (l.map toString)
 def dotsI (l : List Int) : String := ".".intercalate (l.map toString)
@@ -36,18 +38,54 @@ def evStr : Ev → String
   | .pulses sig qoff fl p => s!"Q{sig},{qoff},{fl}:{dotsI p.pulses}"
   | .ret rng tl => s!"D{rng},{tl}"
 
-def frameStr (mode : Nat) (fec : Bool) (off : Nat) (o : FrameOut) : String :=
+def cevStr : CEv → String
+  | .bit logp v => s!"b{logp}={v}"
+  | .uint ft v => s!"u{ft}={v}"
+  | .raw n v => s!"r{n}={v}"
+  | .icdf ftb tbl v => s!"i{ftb}:{dots tbl}={v}"
+  | .bin bits fm => s!"d{bits}={fm}"
+  | .upd fl fh ft => s!"p{fl},{fh},{ft}"
+
+/-- The entropy-decoder calls of a CELT header and the entry of `clt_compute_allocation`. -/
+def hdrStr (cfg : CeltSyms.CeltCfg) (r : Res CeltHdr) : List String :=
+  match r with
+  | .ok h =>
+    h.trace.map cevStr ++
+      [s!"A{cfg.start},{cfg.end_},{cfg.C},{cfg.LM},{h.trim},{h.bits}:{dots h.offsets}:{dots h.caps}:{h.dec.rng},{RangeCoder.tellFrac h.dec}"]
+  | .err e => [errStr e]
+  | .oob => ["OOB"]
+  | .abort => ["ABORT"]
+
+def frameStr (toc : Nat) (pkt : Bytes) (mode : Nat) (fec : Bool) (off : Nat) (o : FrameOut) : String :=
   let head := s!"silk@{off} fs={o.internalRate} ms={o.payloadMs} nch={o.nCh} lost={o.lostFlag}"
   let evs := o.evs.map evStr
-  let e := if o.redundancy ≠ 0 then [s!"E{(off : Int) + o.len},{o.redundancyBytes}"] else []
-  let c := if mode = 1001 ∧ ¬ fec then [s!"C{o.len},{o.dec.storage},{o.dec.rng},{RangeCoder.tell o.dec}"] else []
+  let bw := Framing.getBandwidth toc
+  let spf := Framing.samplesPerFrame toc 48000
+  let redBytes := (pkt.drop ((off : Int) + o.len).toNat).take o.redundancyBytes
+  let e := if o.redundancy ≠ 0 then
+      hdrStr { start := 0, end_ := CeltSyms.endBandOf bw, C := o.nCh, LM := 1 } (CeltSyms.redundancyHeader bw o.nCh redBytes) ++
+      [s!"E{(off : Int) + o.len},{o.redundancyBytes}"] else []
+  let c := if mode = 1001 ∧ ¬ fec then
+      [s!"C{o.len},{o.dec.storage},{o.dec.rng},{RangeCoder.tell o.dec}"] ++
+      (if o.len > 1 then
+        hdrStr { start := 17, end_ := CeltSyms.endBandOf bw, C := o.nCh, LM := CeltSyms.lmOf spf }
+          (CeltSyms.hybridHeader bw o.nCh spf o.len.toNat o.dec) else [])
+    else []
   let tail := if o.celtToSilk ≠ 0 then e ++ c else c ++ e
   " ".intercalate (head :: evs ++ tail)
+
+def celtFrameStr (toc : Nat) (pkt : Bytes) (off sz : Nat) : String :=
+  let bw := Framing.getBandwidth toc
+  let spf := Framing.samplesPerFrame toc 48000
+  let nch := Framing.getNbChannels toc
+  " ".intercalate (s!"celt@{off}" ::
+    hdrStr { start := 0, end_ := CeltSyms.endBandOf bw, C := nch, LM := CeltSyms.lmOf spf }
+      (CeltSyms.celtOnlyHeader bw nch spf ((pkt.drop off).take sz)))
 
 def finalStr (mode : Nat) (fec : Bool) : Option FrameRes → String
   | none => "F0"
   | some .plc => "F0"
-  | some .celt => "F-"
+  | some (.celt _ _) => "F-"
   | some (.silk _ o) =>
     if mode = 1001 ∧ ¬ fec then "F-"
     else if o.len ≤ 1 then "F0" else s!"F{o.dec.rng}"
@@ -60,7 +98,8 @@ def packetStr (fs : Nat) (fec : Bool) (pkt : Bytes) (r : Option (List FrameRes))
   | none => s!"OK ret={spf} F0"
   | some l =>
     let recs := l.filterMap fun
-      | .silk off o => some (frameStr mode fec off o)
+      | .silk off o => some (frameStr toc pkt mode fec off o)
+      | .celt off sz => some (celtFrameStr toc pkt off sz)
       | _ => none
     let ret := if fec then spf else l.length * spf
     " ".intercalate ([s!"OK ret={ret}"] ++ recs ++ [finalStr mode fec l.getLast?])
@@ -74,7 +113,7 @@ def handle : List String → String
   | ["frame", mode, bw, nch, ms10, fec, hex] =>
     match parseNat mode, parseNat bw, parseNat nch, parseNat ms10, parseNat fec, parseHex hex with
     | some mode, some bw, some nch, some ms10, some fec, some fr =>
-      resStr (fun o => frameStr mode (fec != 0) 0 o ++ " " ++ finalStr mode (fec != 0) (some (.silk 0 o)))
+      resStr (fun o => frameStr 0 fr mode (fec != 0) 0 o ++ " " ++ finalStr mode (fec != 0) (some (.silk 0 o)))
         (decodeOpusFrame mode bw nch ms10 (fec != 0) {} fr)
     | _, _, _, _, _, _ => "bad-op"
   | _ => "bad-op"
